@@ -94,6 +94,19 @@ CLAIMED["C03"] = dict(
    note=TB + "Modelled, not verified: asyncio (A1-A4 of DESIGN.md); the 32 KiB threshold flush is abstracted (responses smaller than the buffer); sequence numbers are checked by the oracle, not in Lean.",
    design="DESIGN.md section 4, C03")
 
+CLAIMED["C09"] = dict(
+   technique="Lean 4 proof (invariants of the connection machine by induction over event sequences with kills at every boundary; witness theorem for the known finding) + differential execution with kills injected at every event boundary",
+   text="Theorems in lean/MimicProps/C09.lean: from any alive state, any sequence of application resumes, client block/unblock, QUERY kills (repeated, "
+        "back-to-back) and their delivery keeps the connection alive (never closed, never on the termination path); a CONNECTION kill followed by its "
+        "delivery always terminates the target from every non-closed state; a kill on a finished connection is a no-op; together with C03's response-shape "
+        "and quiescence theorems (which quantify over kills) the statement in flight ends with exactly one ERR and nothing is ever written outside a "
+        "response. Known finding D9d is proved as a witness (PING -> ok, err queryKilled) and reported as KNOWN-FINDING. Tie: target programs over every "
+        "command kind with pending application calls / blocked drains, one kill at EVERY event boundary, pairs and back-to-back kills, KILL on the issuing "
+        "connection, compared event by event with Mimic.Conn; oracle: prefix-of-undisturbed-response + one ERR per kill, liveness after QUERY kills (PING in step), "
+        "termination and single session.close after CONNECTION kills.",
+   note=TB + "Modelled, not verified: asyncio cancellation semantics (A1, A2: delivery at the parked await; request/deliver split models Task.cancel()); kill placement granularity is the harness event boundary (quiescent points), plus back-to-back requests.",
+   design="DESIGN.md section 4, C09")
+
 REASON_PENDING = "check not built yet (work in progress; see DESIGN.md section 9)"
 
 m = {
